@@ -74,14 +74,14 @@ THEOREMS = {
               "C15_einsum_explicit_equation, C15_einsum_implicit_output, C15_einsum_ellipsis_spec, C15_einsum_ellipsis_alignment, "
               "C15_einsum_implicit_matmul, C15_einsum_ellipsis_batched",
     "conjugate": "C15_conjugate_low_rank, C15_conjugate_transpose, C15_conjugate_is_conjTranspose",
-    "conj": "C15_conj",
+    "conj": "C15_conj, C15_rejects_conj, C15_rejects_not_complex_planes",
     "kronecker_prod": "C15_kronecker_prod, C15_kronecker_is_kronecker, C15_rejects_kronecker_prod",
     "norm_sqr": "C15_norm_sqr",
-    "elementwise_division": "C15_elementwise_division, C15_rejects_elementwise_division, C15_scaled_operand_range",
-    "absolute_value": "C15_absolute_value, C15_hypot",
+    "elementwise_division": "C15_elementwise_division, C15_rejects_elementwise_division, C15_scaled_operand_range, C15_rejects_field_not_complex",
+    "absolute_value": "C15_absolute_value, C15_hypot, C15_rejects_field_not_complex",
     "sigmoid": "C15_sigmoid, C15_rejects_sigmoid, C15_sigmoid_exp_bounded",
     "scalar_divide": "C15_scalar_divide, C15_scaled_operand_range",
-    "inverse": "C15_inverse, C15_scaled_operand_range",
+    "inverse": "C15_inverse, C15_scaled_operand_range, C15_rejects_field_not_complex",
     "norm": "C15_norm",
 }
 REQUIRED_THEOREMS = sorted({t.strip() for v in THEOREMS.values() for t in v.split(",")} | {"C15_dec_ops", "C15_dec_sums"})
@@ -579,7 +579,10 @@ def oracle_value(case):
         if fn == "real":
             return ("r", a[0])
         return ("r", a[1]) if fn == "imag" else ("c", a[0] + 1j * a[1])
-    # from here on operands are complex tensors; malformed leading axes are not generated except for the accessors
+    if fn in ("conj", "conjugate", "absolute_value", "inverse", "norm", "norm_sqr") and not cplx_ok(sx):
+        # a tensor without an imaginary plane (0-d, leading axis 1) is not a complex tensor: rejected (final pass, C15-5)
+        return ("err", "IndexError")
+    # from here on operands are complex tensors; malformed leading axes are generated for the accessors and the unary functions only
     if fn in ("scalar_mult", "elementwise_mult"):
         if fn == "scalar_mult" and case.get("out") in ("x", "y"):
             # `out is x or out is y` is tested on the caller's objects, before y = y.to(x): whatever the dtypes
@@ -2211,6 +2214,14 @@ def gen_malformed(ctx, n_scale):
         # accessors on tensors that are not complex tensors: 0-d, leading axis 1; leading axis 3 is accepted (extra planes ignored)
         s = rng.choice([[], [1], [1, 2], [3], [3, 2], [1, 1, 2]])
         yield {"fn": rng.choice(["real", "imag", "numpy"]), "num": num, "x": rand_real(rng, s, num)}
+    for _ in R(60):
+        # unary functions on tensors that are not complex tensors (0-d, leading axis 1), norm of a matrix / higher rank (final pass, C15-5)
+        fn = rng.choice(["conj", "conjugate", "absolute_value", "inverse", "norm", "norm_sqr"])
+        tnum = "float" if fn in FIELD_FNS else num
+        if fn == "norm" and rng.random() < 0.5:
+            yield {"fn": fn, "num": tnum, "x": rand_cplx(rng, rng.choice([[2, 2], [1, 3], [2, 1, 2]]), tnum)}
+        else:
+            yield {"fn": fn, "num": tnum, "x": rand_real(rng, rng.choice([[], [1], [1, 2], [1, 3], [1, 2, 2]]), tnum)}
     for _ in R(110):
         m, k, p = rng.randint(1, 3), rng.randint(2, 3), rng.randint(1, 3)
         form = rng.choice(["mm", "mv", "vv", "s_m", "m_s", "batch", "vm"])
